@@ -1853,7 +1853,12 @@ class Pipeline:
             else {pipeline.node_mapping[n] for n in inputs}
         )
         output_nodes: set[PipeFunc] = (
-            set(pipeline.leaf_nodes)
+            # Without explicit outputs: the leaf nodes that (partially) derive from the inputs
+            {
+                leaf
+                for leaf in pipeline.leaf_nodes
+                if any(leaf in nx.descendants(pipeline.graph, n) for n in input_nodes)
+            }
             if output_names is None
             else {pipeline.node_mapping[n] for n in output_names}  # type: ignore[misc]
         )
@@ -1863,7 +1868,7 @@ class Pipeline:
             pipeline.drop(f=f)
 
         if inputs is not None:
-            new_root_args = set(pipeline.topological_generations.root_args)
+            new_root_args = set(pipeline.topological_generations.root_args) - set(pipeline.defaults)
             if not new_root_args.issubset(inputs):
                 outputs = {f.output_name for f in pipeline.functions}
                 msg = (
@@ -2125,14 +2130,17 @@ def _find_nodes_between(
     input_nodes: set[Any],
     output_nodes: set[Any],
 ) -> set[Any]:
-    reachable_from_inputs = set()
-    for input_node in input_nodes:
-        reachable_from_inputs.update(nx.descendants(graph, input_node))
-    reachable_to_outputs = set()
-    for output_node in output_nodes:
-        reachable_to_outputs.update(nx.ancestors(graph, output_node))
-    reachable_to_outputs.update(output_nodes)
-    return reachable_from_inputs & reachable_to_outputs
+    # Walk back from the outputs and stop at the provided inputs. (Not every required function
+    # descends from an input: it might have no parameters or only defaults/bound values.)
+    between: set[Any] = set()
+    stack = list(output_nodes)
+    while stack:
+        node = stack.pop()
+        if node in between or (node in input_nodes and node not in output_nodes):
+            continue
+        between.add(node)
+        stack.extend(graph.predecessors(node))
+    return between
 
 
 @dataclass(frozen=True, slots=True)
